@@ -106,6 +106,8 @@ def check(case: dict):
 
     parts = {"name": sanitize_fname(str(c.name)), "grid size": str(c.grid_n), "maze count": shorten_numerical_to_str(c.n_mazes),
              "generator": c.maze_ctor.__name__.removeprefix("gen_"), "hash digits": str(c.stable_hash_cfg() % 10**5)}
+    if len(parts["name"]) > 64:
+        parts["name"] = parts["name"][:32]  # (a very long name may be abbreviated - the statement does not say it appears in full)
     missing = [k for k, v in parts.items() if v not in fn and not (k == "maze count" and str(c.n_mazes) in fn)]
     require(not missing, "C18:fname", f"{fn} lacks {missing} (expected ingredients {parts})")
     labels = [spec["ctor"]]
@@ -224,7 +226,8 @@ def check_collection(case: dict):
     return {"nt": len(specs) >= 2, "labels": ["collection"]}
 
 
-_NAMES = st.sampled_from(["cfg", "test", "a-b_c", "x1", "My Data", "name.with.dots", "ünï", "p/q"])
+_LONG = "sweep-lr0.001-bs64-wd0.01-seed7-percolation-ablation-no-deadends-curriculum-stage3-replica-b"
+_NAMES = st.sampled_from(["cfg", "test", "a-b_c", "x1", "My Data", "name.with.dots", "ünï", "p/q", _LONG, _LONG + "-" + _LONG[:40], "n" * 180])
 
 
 @st.composite
